@@ -78,6 +78,7 @@ func (o op) coq() string {
 
 type script struct {
 	Iid   int      `json:"iid"`
+	Vid   int      `json:"vid,omitempty"` // 0 default configuration, else variants.go
 	Name  string   `json:"name"`
 	Ops   []op     `json:"ops"`
 	FailW int      `json:"failw"` // 0 never, k>0: every k-th RTCP/RTP write to the next writer fails
@@ -106,6 +107,9 @@ type kind struct {
 	// the probe is a build-tag hook that may be missing in the tree under test: without it the state bits
 	// are not observable (mask 0)
 	hookOnly bool
+	// non-default configuration of interceptor `id` (variants.go); bare: streams that advertise no capability
+	vid  int
+	bare bool
 }
 
 func (k *kind) canProbe(ic interceptor.Interceptor) bool {
@@ -496,6 +500,14 @@ func (r *runner) rtpReader() interceptor.RTPReader {
 	})
 }
 
+func (r *runner) info(ssrc uint32) *interceptor.StreamInfo {
+	if r.k.bare {
+		return bareStreamInfo(ssrc)
+	}
+
+	return streamInfo(ssrc)
+}
+
 func (r *runner) packet(ssrc uint32) *rtp.Packet {
 	s := r.seq[ssrc]
 	r.seq[ssrc] = s + 2 // leave a gap so that the NACK generator has something to ask for
@@ -546,21 +558,21 @@ func (r *runner) do(o op) {
 		r.mu.Unlock()
 	case "bind":
 		if r.k.remote {
-			rd := r.ic.BindRemoteStream(streamInfo(o.X), r.rtpReader())
+			rd := r.ic.BindRemoteStream(r.info(o.X), r.rtpReader())
 			r.mu.Lock()
 			r.readers[o.X] = rd
 			r.mu.Unlock()
 		} else {
-			w := r.ic.BindLocalStream(streamInfo(o.X), r.rtpWriter())
+			w := r.ic.BindLocalStream(r.info(o.X), r.rtpWriter())
 			r.mu.Lock()
 			r.writers[o.X] = w
 			r.mu.Unlock()
 		}
 	case "unbind":
 		if r.k.remote {
-			r.ic.UnbindRemoteStream(streamInfo(o.X))
+			r.ic.UnbindRemoteStream(r.info(o.X))
 		} else {
-			r.ic.UnbindLocalStream(streamInfo(o.X))
+			r.ic.UnbindLocalStream(r.info(o.X))
 		}
 	case "traffic":
 		r.mu.Lock()
@@ -656,7 +668,7 @@ type unbindMark struct {
 
 // runScript drives one script against a fresh interceptor and fills Obs.
 func runScript(sc *script) {
-	k := kinds[sc.Iid]
+	k := kindFor(sc.Iid, sc.Vid)
 	ic, err := k.mk()
 	if err != nil {
 		panic(err)
@@ -841,6 +853,7 @@ var gateModeName = []string{"close", "unbind-all-close", "double-close", "unbind
 type gateResult struct {
 	Special       string `json:"special"`
 	Iid           int    `json:"iid"`
+	Vid           int    `json:"vid,omitempty"`
 	Name          string `json:"name"`
 	Mode          int    `json:"mode"`
 	Members       []int  `json:"members,omitempty"` // chain kinds built for the run (iid >= 14)
@@ -930,8 +943,8 @@ func within(d time.Duration, f func()) (bool, chan struct{}) {
 // unbind every stream / Close / Close twice, and see whether every Close waits for the goroutine that
 // is writing.
 func runGate(k *kind, mode int) *gateResult {
-	res := &gateResult{Special: "gate", Iid: k.id, Name: k.name, Mode: mode, Members: k.members14()}
-	label := fmt.Sprintf("%d-%d", k.id, mode)
+	res := &gateResult{Special: "gate", Iid: k.id, Vid: k.vid, Name: k.name, Mode: mode, Members: k.members14()}
+	label := fmt.Sprintf("%d-%d-%d", k.id, k.vid, mode)
 	pprof.Do(context.Background(), pprof.Labels("c11g", label), func(context.Context) { runGateLabelled(k, mode, label, res) })
 
 	return res
@@ -1103,6 +1116,7 @@ func runGateLabelled(k *kind, mode int, label string, res *gateResult) {
 type concResult struct {
 	Special     string `json:"special"`
 	Iid         int    `json:"iid"`
+	Vid         int    `json:"vid,omitempty"`
 	Name        string `json:"name"`
 	DelayUs     int    `json:"delay_us"`
 	TrafficHang bool   `json:"traffic_hang"`
@@ -1112,7 +1126,7 @@ type concResult struct {
 }
 
 func runConcurrent(k *kind, delayUs int) *concResult {
-	res := &concResult{Special: "concurrent-close", Iid: k.id, Name: k.name, DelayUs: delayUs}
+	res := &concResult{Special: "concurrent-close", Iid: k.id, Vid: k.vid, Name: k.name, DelayUs: delayUs}
 	ic, err := k.mk()
 	if err != nil {
 		panic(err)
@@ -1386,7 +1400,7 @@ func (sc *script) toCase(buckets ...string) cq.Case {
 	for i, o := range sc.Obs {
 		obs[i] = cq.T(cq.Z(int64(o[0])), cq.Z(int64(o[1])))
 	}
-	b := append([]string{kinds[sc.Iid].name}, buckets...)
+	b := append([]string{kindFor(sc.Iid, sc.Vid).name}, buckets...)
 	hasClose, hasUnbind, parked := false, false, false
 	for _, o := range sc.Ops {
 		hasClose = hasClose || o.K == "close"
@@ -1446,7 +1460,7 @@ func implFailures(scs []*script) []cq.ImplFailure {
 		fails = append(fails, cq.ImplFailure{Kind: kind, Detail: detail, Case: sc})
 	}
 	for _, sc := range scs {
-		name := kinds[sc.Iid].name
+		name := kindFor(sc.Iid, sc.Vid).name
 		ops := append(append([]op{}, sc.Ops...), op{K: "close"})
 		for i, o := range sc.Obs {
 			switch o[0] {
@@ -1478,14 +1492,16 @@ func main() {
 	}
 	var scs []*script
 	var tags [][]string
-	add := func(iid int, ops []op, failw int, tag ...string) {
+	addK := func(k *kind, ops []op, failw int, tag ...string) {
 		if !valid(ops) {
 			return
 		}
-		scs = append(scs, &script{Iid: iid, Name: kinds[iid].name, Ops: ops, FailW: failw, Members: kinds[iid].members14()})
+		scs = append(scs, &script{Iid: k.id, Vid: k.vid, Name: k.name, Ops: ops, FailW: failw, Members: k.members14()})
 		tags = append(tags, tag)
 	}
-	replayGate, replayConc, replayGateMode := -1, -1, 0
+	add := func(iid int, ops []op, failw int, tag ...string) { addK(kinds[iid], ops, failw, tag...) }
+	variants = buildVariants()
+	replayGate, replayConc, replayGateMode, replayVid := -1, -1, 0, 0
 	var heldReplay, heldCorpus []heldJob
 	if o.Replay != "" {
 		var g gateResult
@@ -1495,10 +1511,10 @@ func main() {
 			if len(g.Members) > 0 {
 				ensureChain(g.Iid, g.Members)
 			}
-			replayGate, replayGateMode = g.Iid, g.Mode
+			replayGate, replayGateMode, replayVid = g.Iid, g.Mode, g.Vid
 			add(g.Iid, []op{{K: "bindw"}}, 0, "replay") // keeps the case set non-empty
 		case "concurrent-close":
-			replayConc = g.Iid
+			replayConc, replayVid = g.Iid, g.Vid
 			add(g.Iid, []op{{K: "bindw"}}, 0, "replay")
 		case "held":
 			var h heldResult
@@ -1516,7 +1532,7 @@ func main() {
 			}
 			// schedule-dependent failures do not show on every run: replay the script several times
 			for i := 0; i < 12; i++ {
-				add(sc.Iid, sc.Ops, sc.FailW, "replay")
+				addK(kindFor(sc.Iid, sc.Vid), sc.Ops, sc.FailW, "replay")
 			}
 		}
 	} else if os.Getenv("C11_ONLY") != "" {
@@ -1527,7 +1543,7 @@ func main() {
 			var sc script
 			cq.LoadReplay(f, &sc)
 			if sc.Name != "" && len(sc.Ops) > 0 && len(sc.Members) == 0 {
-				add(sc.Iid, sc.Ops, sc.FailW, "corpus")
+				addK(kindFor(sc.Iid, sc.Vid), sc.Ops, sc.FailW, "corpus")
 			}
 			var h heldResult
 			cq.LoadReplay(f, &h)
@@ -1591,6 +1607,10 @@ func main() {
 			for _, s := range longWarmScripts() {
 				add(k.id, s, 0, "long-warm-rebind")
 			}
+			// Unbind x, a packet through the stale handle of x, then every call
+			for _, s := range staleHandleScripts(1) {
+				add(k.id, s, 0, "stale-handle")
+			}
 			for i := 0; i < nRand; i++ {
 				n := 4 + rng.Intn(4)
 				s := make([]op, n)
@@ -1618,6 +1638,41 @@ func main() {
 				add(k.id, s, failw, "random")
 			}
 		}
+		// the same interceptors in a non-default configuration (variants.go): set c11v
+		nVRand := o.Scale(40, 600)
+		for _, v := range variants {
+			for _, s := range staleHandleScripts(2) {
+				addK(v, s, 0, "stale-handle")
+			}
+			for _, s := range suffix {
+				addK(v, append(append([]op{}, warm...), s...), 0, "warm+exhaustive")
+			}
+			for _, o1 := range alphabet(2) {
+				addK(v, append(append([]op{}, reopened...), o1), 0, "reopened")
+			}
+			for failw := 1; failw <= 3; failw++ {
+				for _, s := range failingWriterScripts {
+					addK(v, s, failw, "failing-writer-fixed")
+				}
+			}
+			for i := 0; i < nVRand; i++ {
+				n := 4 + rng.Intn(5)
+				s := make([]op, n)
+				for j := range s {
+					s[j] = full[rng.Intn(len(full))]
+				}
+				if !valid(s) {
+					i--
+
+					continue
+				}
+				failw := 0
+				if rng.Intn(4) == 0 {
+					failw = 1 + rng.Intn(3)
+				}
+				addK(v, s, failw, "random")
+			}
+		}
 	}
 	t0 := time.Now()
 	runAll(scs)
@@ -1631,8 +1686,14 @@ func main() {
 		Name: "c11c", Import: "IV.Check.C11bCheck", CaseType: "c11c_case",
 		Checks: []string{"c11c_mismatches", "c11c_spec_failures"},
 	}
+	vset := &cq.Set{
+		Name: "c11v", Import: "IV.Check.C11dCheck", CaseType: "c11v_case",
+		Checks: []string{"c11v_mismatches", "c11v_spec_failures"},
+	}
 	for i, sc := range scs {
-		if len(sc.Members) > 0 {
+		if sc.Vid != 0 {
+			vset.Cases = append(vset.Cases, sc.toVariantCase(tags[i]...))
+		} else if len(sc.Members) > 0 {
 			cset.Cases = append(cset.Cases, sc.toCase(tags[i]...))
 		} else {
 			set.Cases = append(set.Cases, sc.toCase(tags[i]...))
@@ -1655,8 +1716,8 @@ func main() {
 	if o.Replay == "" || replayGate >= 0 {
 		var gw sync.WaitGroup
 		var gmu sync.Mutex
-		for _, k := range kinds {
-			if replayGate >= 0 && k.id != replayGate {
+		for _, k := range append(append([]*kind{}, kinds...), variants...) {
+			if replayGate >= 0 && (k.id != replayGate || k.vid != replayVid) {
 				continue
 			}
 			for mode := 0; mode < nGateModes; mode++ {
@@ -1675,6 +1736,9 @@ func main() {
 		}
 		gw.Wait()
 		sort.Slice(gates, func(i, j int) bool {
+			if gates[i].Vid != gates[j].Vid {
+				return gates[i].Vid < gates[j].Vid
+			}
 			if gates[i].Iid != gates[j].Iid {
 				return gates[i].Iid < gates[j].Iid
 			}
@@ -1730,8 +1794,8 @@ func main() {
 		var cw sync.WaitGroup
 		var cmu sync.Mutex
 		sem := make(chan struct{}, 16)
-		for _, k := range kinds {
-			if replayConc >= 0 && k.id != replayConc {
+		for _, k := range append(append([]*kind{}, kinds...), variants...) {
+			if replayConc >= 0 && (k.id != replayConc || k.vid != replayVid) {
 				continue
 			}
 			for it := 0; it < per; it++ {
@@ -1788,6 +1852,9 @@ func main() {
 	if len(cset.Cases) > 0 {
 		sets = append(sets, cset)
 	}
+	if len(vset.Cases) > 0 {
+		sets = append(sets, vset)
+	}
 	chains := map[string][]int{}
 	for _, k := range kinds {
 		if k.id >= 14 {
@@ -1801,6 +1868,11 @@ func main() {
 			Checks: []string{"c11g_mismatches", "c11g_spec_failures"},
 		}
 		for _, g := range gates {
+			if g.Vid != 0 {
+				// variants: the gated runs report through the implementation failures only (the model of the
+				// held schedule is instantiated for the default configurations)
+				continue
+			}
 			b := []string{"gated", "gated-" + gateModeName[g.Mode], g.Name}
 			if g.Entered {
 				b = append(b, "gated-write-in-progress")
